@@ -53,6 +53,13 @@ def step (s : Unit) (line : String) : Unit × String :=
   if op == "ntables" then
     let ids := ((List.range 302).map (fun (i : Nat) => Int.ofNat i - 2)).filter fun id => (setTable EaselModel.Generated.Gencode.tables id).isSome
     (s, "ok ids=" ++ ",".intercalate (ids.map toString))
+  else if op == "read" then
+    match setTable EaselModel.Generated.Gencode.tables 1 with
+    | none => (s, "bad-op")
+    | some g1 =>
+      match read NT AA g1 (argBytes ws "hex") with
+      | none => (s, "eformat")
+      | some g => (s, s!"ok id={g.translTable} desc={hx (strBytes g.desc)} basic={hx g.basic} init={hx g.isInit}")
   else
   match makeCode ws with
   | none => (s, "enotfound")
@@ -69,6 +76,15 @@ def step (s : Unit) (line : String) : Unit × String :=
     match write NT AA g ((argNat? ws "comment").getD 0 ≠ 0) with
     | some bytes => (s, s!"ok {hx bytes}")
     | none => (s, "fault")
+  else if op == "readwrite" then
+    match write NT AA g ((argNat? ws "comment").getD 0 ≠ 0), setTable EaselModel.Generated.Gencode.tables 1 with
+    | some bytes, some g1 =>
+      match read NT AA g1 bytes with
+      | none => (s, "eformat msg")
+      | some g2 =>
+        let same := g2.basic == g.basic && g2.isInit == g.isInit.map (fun f => if f ≠ 0 then 1 else 0)
+        (s, s!"ok {if same then "same" else "DIFFERENT"} id={g2.translTable} desc={hx (strBytes g2.desc)}")
+    | _, _ => (s, "fault")
   else if op == "orfs" then
     let txt := (argBytes ws "dna").takeWhile (· ≠ 0)
     let (st, dsq) := NT.digitize txt
